@@ -141,6 +141,8 @@ package html
 //@   loop * decreases len(l.r.buf) - l.r.pos
 
 //@ func Lexer.shiftRawText
+//@   ensures[F,C15] @err-at-nul: l.err != old(l.err) ==> l.err != nil && errOff(l.err) == l.r.pos && old(l.r.pos) <= errOff(l.err) && l.r.buf[errOff(l.err)] == 0 && errOff(l.err) < len(l.r.buf)-1
+//@   loop * candidate[F] l.err == old(l.err)
 //@   preserves[S] hScan(l)
 //@   ensures[F,C09] @intag: l.inTag == old(l.inTag)
 //@   ensures[F,C09] @tmpl: l.hasTmpl && !old(l.hasTmpl) ==> len(l.tmplBegin) > 0
